@@ -665,11 +665,10 @@ class ChmSel(Selection):
             return ChmSel(chm)
 
     def check(self) -> bool:
-        return self.c.has_value()
+        return _chm_sel_has_value(self.c)
 
     def get_subselection(self, addr: StaticAddressComponent) -> Selection:
-        submap = self.c.get_inner_map(addr)
-        return submap.get_selection()
+        return ChmSel.build(_chm_sel_submap(self.c, addr))
 
 
 ###############
@@ -1754,6 +1753,38 @@ class Or(ChoiceMap):
         submap1 = self.c1.get_inner_map(addr)
         submap2 = self.c2.get_inner_map(addr)
         return submap1 | submap2
+
+
+# Selections only see static addresses: index levels are transparent to them (as they are
+# to `ChoiceMap.filter` and `_shape_selection`), so `ChmSel` looks through `Indexed` nodes.
+def _chm_sel_has_value(chm: ChoiceMap) -> bool:
+    match chm:
+        case Indexed(c, _):
+            return _chm_sel_has_value(c)
+        case Or(c1, c2):
+            return _chm_sel_has_value(c1) or _chm_sel_has_value(c2)
+        case Switch(_, chms):
+            return any(_chm_sel_has_value(c) for c in chms)
+        case _:
+            return chm.has_value()
+
+
+def _chm_sel_submap(chm: ChoiceMap, addr: StaticAddressComponent) -> ChoiceMap:
+    match chm:
+        case Indexed(c, _):
+            return _chm_sel_submap(c, addr)
+        case Or(c1, c2):
+            s1, s2 = _chm_sel_submap(c1, addr), _chm_sel_submap(c2, addr)
+            if s1.static_is_empty():
+                return s2
+            elif s2.static_is_empty():
+                return s1
+            else:
+                return Or(s1, s2)
+        case Switch(idx, chms):
+            return Switch(idx, [_chm_sel_submap(c, addr) for c in chms])
+        case _:
+            return chm.get_inner_map(addr)
 
 
 def _shape_selection(chm: ChoiceMap) -> Selection:
